@@ -414,8 +414,14 @@ pub async fn requestor_clones_after_recovery(addr: SocketAddr, certs: &Certs, bo
     let mut wrong = vec![];
     let mut failed = vec![];
     for o in 0..=outages {
+        // even outages: every clone recovers one after the other before the burst;
+        // odd outages ("staggered"): the burst starts right after the cut, so clones recover at different times
+        // while other, already recovered clones have calls outstanding
+        let staggered = o % 2 == 1;
         if o > 0 {
             cr.verif_close_connection().await;
+        }
+        if o > 0 && !staggered {
             // every clone notices the loss with its next call (which may fail) and re-establishes its own stream
             for (ci, c) in clones.iter_mut().enumerate() {
                 for attempt in 0..3 {
@@ -442,10 +448,15 @@ pub async fn requestor_clones_after_recovery(addr: SocketAddr, certs: &Certs, bo
                 let mut c2 = c.clone();
                 tasks.push(tokio::spawn(async move {
                     let mut res = vec![];
-                    for k in 0..burst {
+                    if staggered {
+                        // callers come back one after the other: a caller re-establishes its stream while the
+                        // callers before it are already back in steady state with calls outstanding
+                        tokio::time::sleep(Duration::from_millis(((ci * 8 + sub) * 3) as u64)).await;
+                    }
+                    for k in 0..(if staggered { burst * 4 } else { burst }) {
                         let p = format!("burst-o{}-c{}-s{}-k{}", o, ci, sub, k);
                         let r = tokio::time::timeout(Duration::from_secs(40), c2.request(p.clone())).await;
-                        res.push((p, r.map(|x| x.map_err(|e| e.to_string())).map_err(|_| "no return within 40 s".to_string())));
+                        res.push((p, r.map(|x| x.map_err(|e| (matches!(e, SeliumError::RequestTimeout), e.to_string()))).map_err(|_| "no return within 40 s".to_string())));
                     }
                     res
                 }));
@@ -455,11 +466,20 @@ pub async fn requestor_clones_after_recovery(addr: SocketAddr, certs: &Certs, bo
         clones = keep;
         for t in tasks {
             let res = t.await.map_err(|e| format!("harness task: {e}"))?;
+            // in a staggered phase a caller's calls may fail until its first success (it is still recovering)
+            let mut recovered = !staggered || o == 0;
             for (p, r) in res {
                 match r {
-                    Ok(Ok(v)) if v == format!("re:{}", p) => ok += 1,
+                    Ok(Ok(v)) if v == format!("re:{}", p) => {
+                        ok += 1;
+                        recovered = true;
+                    }
                     Ok(Ok(v)) => wrong.push(format!("request {:?} returned Ok({:?})", p, v)),
-                    Ok(Err(e)) => failed.push(format!("request {:?} failed: {}", p, e)),
+                    Ok(Err((is_timeout, e))) => {
+                        if recovered && !is_timeout {
+                            failed.push(format!("request {:?} failed after its caller had recovered: {}", p, e));
+                        }
+                    }
                     Err(e) => failed.push(format!("request {:?}: {}", p, e)),
                 }
             }
@@ -987,7 +1007,7 @@ pub fn run(rep: &mut StageReport, tier: &str, _seed: u64) {
             out.push((format!("recovery/{}", role_name), cfg, r));
         }
         // requestor clones: concurrent calls on clones that each recovered their own stream
-        for (k, (n_clones, outages)) in [(3usize, 2usize), (5, 1)].into_iter().enumerate() {
+        for (k, (n_clones, outages)) in [(3usize, 2usize), (5, 3)].into_iter().enumerate() {
             let bo = backoff(k, 3, 10);
             let burst = if thorough { 40 } else { 8 };
             let cfg = json!({"role": "requestor", "clones": n_clones + 1, "outages": outages, "concurrent_calls_per_clone_after_each_outage": burst});
@@ -998,7 +1018,7 @@ pub fn run(rep: &mut StageReport, tier: &str, _seed: u64) {
                 Ok(Ok((ok, wrong, failed))) => {
                     if let Some(w) = wrong.first() {
                         Err(V("requestor/clone-got-foreign-reply-after-recovery".into(), format!("{} of {} calls on recovered clones returned another call's reply, e.g. {}", wrong.len(), ok as usize + wrong.len() + failed.len(), w)))
-                    } else if failed.len() * 10 > (ok as usize + failed.len()) {
+                    } else if !failed.is_empty() {
                         Err(V("requestor/clones-not-working-after-recovery".into(), format!("{} of {} calls on recovered clones failed although the replier answers immediately, e.g. {}", failed.len(), ok as usize + failed.len(), failed[0])))
                     } else {
                         Ok(ok)
